@@ -72,12 +72,12 @@ Q = {
 # thorough sizes (minutes; each under its own time limit)
 T = {
     "cap_unit": U("cap_unit", timeout=900),
-    "cap_weight3": U("cap_weight", weights=(0, 1, 2), timeout=1200),
+    "cap_weight3": U("cap_weight", weights=(0, 1, 2), timeout=600),
     "cap_weight2": U("cap_weight", nkeys=2, weights=(0, 1, 2, 5), timeout=900),
     "expiry3": U("expiry", maxt=4, timeout=900),
     "cap_const3": U("cap_const", weights=(0, 1, 2), timeout=900),
     "cap1_ttl": U("cap1_ttl", nkeys=2, maxt=4, timeout=900),
-    "cap2_tti3": U("cap2_tti", nkeys=3, maxt=3, timeout=1200),
+    "cap2_tti3": U("cap2_tti", nkeys=3, maxt=3, timeout=600),
     "cap2_ttl_tti_w": U("cap2_ttl_tti_w", nkeys=2, weights=(1, 2), maxt=3, timeout=900),
     "cap1_ttl0": U("cap1_ttl0", nkeys=3, maxt=2, timeout=900),
     "s_cap1": S("cap1", depth=9, timeout=1500),
